@@ -20,11 +20,24 @@ FIRST_MISSED = {  # what the first evaluation missed, and what was strengthened
  "C10-3": "difference attributed to the recorded re-validation finding → signature tells self-reaching fragments apart",
  "C15-1": "each site evaluated once → repeated calls with other variables compared with a fresh document object",
 }
+FIRST_MISSED.update({
+ "C01-b3": "the harness itself died: it counts tokens with the library in its own process → a library panic inside the harness is reported as a violation (and the worker-side lexer sweep reports it too)",
+ "C02-b2": "fan-out families were acyclic → fan-out closed into a cycle below __schema / __type",
+ "C04-b3": "positions were only judged through ParseSchemas → also through ParseSchemasWithLimit",
+ "C07-b3": "no user source was ever marked BuiltIn → load histories with BuiltIn user sources",
+ "C08-b1": "field-merging patterns too rare in the typed generators → the mutation stage of the merging-rule correspondence runs inside C08 and every mutant is judged against the specification",
+ "C09-b3": "each request used a freshly loaded schema → history probe against one shared schema object, forwards and backwards",
+ "C10-b1": "no candidates differing only in case → case-variant histories",
+ "C10-b3": "no schema extending prelude types in a history → prelude-extension histories",
+ "C16-b2": "comment groups are not in the wire format and every parse ran alone → limited parse after an earlier limited parse compared with the unlimited parse by reflect.DeepEqual (positions and comments)",
+ "C18-b2": "no document with more than 100 errors → documents with 40–400 errors from several rules",
+ "C20-b2": "a nil *gqlerror.Error inside an error crashed the observation printer; no top-level json.Number variables → both handled",
+})
 NOTE = {"C02-2": "obsolete: the guarded code (in-progress set) was replaced by the fields-and-fragment memo before it could be evaluated",
         "C09-1": "rebased by hand onto the repaired walker", "C10-3": "rebased by hand onto the polynomial rule", "C11-3": "import hunk rebased by hand"}
 print("| change | file | what it breaks | caught by | first evaluation |")
 print("|---|---|---|---|---|")
-for d in sorted(glob.glob(os.path.join(ROOT, "seeded", "C*-*"))):
+for d in sorted(glob.glob(os.path.join(ROOT, "seeded", "C*-*")), key=lambda x: (os.path.basename(x)[:3], "b" in os.path.basename(x)[3:], x)):
     name = os.path.basename(d)
     m = json.load(open(os.path.join(d, "meta.json")))
     caught = [c for c, r in m.get("checks_run", {}).items() if r.get("caught")]
